@@ -126,6 +126,10 @@ func getSigBlock(f *os.File) (*zipslicer.Directory, []byte, error) {
 		// not signed
 		return inz, nil, nil
 	}
+	if sigLoc > inz.DirLoc || inz.DirLoc-sigLoc < 32 {
+		// the block is framed by two 8-byte sizes and a 16-byte magic
+		return nil, nil, errMalformed
+	}
 	// read signature block
 	blob := make([]byte, inz.DirLoc-sigLoc)
 	if _, err := f.ReadAt(blob, sigLoc); err != nil {
